@@ -39,7 +39,8 @@ let cmd_stmt (req : json) : json =
   match parse_expression (text_of (field req "text")) with
   | None -> Obj [ ("r", Str "noparse") ]
   | Some (e, rest) ->
-    if ws rest <> [] then Obj [ ("r", Str "noparse") ] else
+    (* "prefix": the statement parsers take the longest expression and leave the rest to the next statement *)
+    if ws rest <> [] && not (to_bool (field req "prefix")) then Obj [ ("r", Str "noparse") ] else
     let ev = (match eval en e with
         | EVal None -> Str "none" | EVal (Some (SNum z)) -> jz z | EVal (Some (SStr _)) -> Str "string"
         | EErr _ -> Str "err" | EPanic -> Str "panic") in
@@ -74,6 +75,10 @@ let cmd_bank (req : json) : json =
   | Obj l -> Obj (l @ [ ("known", Bool (known_bank_size_huge size)) ])
   | j -> j
 
+let cmd_branch (req : json) : json =
+  let cur = to_opt to_z (field req "cur") in
+  jsite jz (branch_offset cur (to_z (field req "target")))
+
 let cmd_known (req : json) : json =
   let l = ref [] in
   (match field req "pc" with Null -> () | j ->
@@ -104,4 +109,4 @@ let cmd_consts (_ : json) : json =
         ("nesting_limit", jnat nesting_limit); ("huge_loop_threshold", jz huge_loop_threshold) ]
 
 let () = main_loop [ ("binop", cmd_binop); ("literal", cmd_literal); ("stmt", cmd_stmt); ("name", cmd_name); ("loop", cmd_loop);
-                     ("depth", cmd_depth); ("bank", cmd_bank); ("known", cmd_known); ("replay", cmd_replay); ("consts", cmd_consts) ]
+                     ("depth", cmd_depth); ("bank", cmd_bank); ("branch", cmd_branch); ("known", cmd_known); ("replay", cmd_replay); ("consts", cmd_consts) ]
